@@ -275,7 +275,8 @@ LAYER_KINDS = {
     "A": ["raise:OperationalError", "raise:OperationalError", "raise:IntegrityError", "raise:MemoryError",
           "raise:KeyboardInterrupt", "kill", "kill"],
     "B": ["interrupt"],
-    "C": ["eio", "enospc", "short", "kill_before", "kill_after", "kill_before", "kill_after"],
+    "C": ["eio", "enospc", "short", "kill_before", "kill_after", "kill_before", "kill_after", "kill_before",
+          "kill_after", "kill_mid"],
     "L": ["shared", "reserved", "exclusive"],
 }
 
@@ -823,8 +824,11 @@ def sweep(seed, directory, step, prefix_steps, spec=None, knobs=None, layers=("A
             plans.append({"layer": "A", "kind": "kill", "at": k, "of": twin_ex.calls})
     if "C" in layers and sysfault.available():
         for k in range(twin_ex.syscalls):
-            for kind in ("eio", "enospc", "kill_before", "kill_after", "short"):
-                if kind == "short" and twin_ex.sys_log and twin_ex.sys_log[k][0] not in ("p", "w"):
+            for kind in ("eio", "enospc", "kill_before", "kill_after", "short", "kill_mid"):
+                entry = twin_ex.sys_log[k] if twin_ex.sys_log and k < len(twin_ex.sys_log) else None
+                if kind == "short" and entry and entry[0] not in ("p", "w", "c"):
+                    continue
+                if kind == "kill_mid" and not (entry and (entry[0] == "c" or (entry[0] in ("p", "w") and entry[2] > 4096))):
                     continue
                 plans.append({"layer": "C", "kind": kind, "at": k, "of": twin_ex.syscalls})
     if "B" in layers and twin_ex.callbacks:
